@@ -118,6 +118,15 @@ def contract_close(impl_c: dict, model_c: dict, vm: C.VarMap) -> bool:
     return C.tls_close(G.w_tl(impl_c["a"], vm), model_c["a"]) and C.tls_close(G.w_tl(impl_c["g"], vm), model_c["g"])
 
 
+def has_residue_term(cj: dict) -> bool:
+    """a term all of whose coefficients are float cancellation residue (|c| <= 1e-9): exact arithmetic has no such term"""
+    for t in list(cj.get("a", [])) + list(cj.get("g", [])):
+        cs = [abs(float(v)) for v in t["c"].values()]
+        if cs and max(cs) <= 1e-9:
+            return True
+    return False
+
+
 def compare_contract_result(impl: dict, model: dict, vm: C.VarMap) -> Optional[str]:
     alts = [model, model.get("alt", model)]
     if "err" in impl:
@@ -138,6 +147,8 @@ def compare_contract_result(impl: dict, model: dict, vm: C.VarMap) -> Optional[s
     if json.dumps(sa, sort_keys=True) != json.dumps(sb, sort_keys=True):
         return "TIE: exact ties / tolerance-band verdicts resolved in a mixed way"
     a = alts[0]
+    if "ok" in impl and has_residue_term(impl["ok"]):
+        return "TIE: float cancellation residue (the implementation's result has a term whose every coefficient is below 1e-9)"
     if "err" in a:
         return f"impl ok vs model {a['err']}"
     return "impl " + str(impl["ok"])[:500] + " vs model a=" + str([C.wire_to_str(t, vm) for t in a["ok"]["a"]]) + " g=" + str([C.wire_to_str(t, vm) for t in a["ok"]["g"]]) \
